@@ -186,7 +186,7 @@ pub fn check(c: &Case, obs: &mut Obs) -> Result<(), String> {
                     .take(4)
                     .enumerate()
                     .map(|(q, x)| (format!("{}{}", ["k", "a", "é", ""][pick(*x, 4)], if q % 2 == 0 { op.s.as_str() } else { "" }), pick(*x >> 2, n)))
-                    .filter(|(k, _)| seen.insert(k.clone()))
+                    .filter(|(k, _)| seen.insert(k.clone()) || op.c % 4 == 0)
                     .collect();
                 let r = nopanic("build_object", || jsonb::build_object(parts.iter().map(|(k, q)| (k.as_str(), pool[*q].b.as_slice())), &mut buf))?;
                 edit(format!("build_object({parts:?})"), Ok(M::Obj(parts.iter().map(|(k, q)| (k.clone(), pool[*q].m.clone())).collect())), r, buf)?
